@@ -1035,6 +1035,26 @@ def check_end_guards(ck, rule, label, prog, body, input_param=1):
             n += 1
             continue
         c0 = int(a.get((), 0))
+        # the loop may stop with a remainder when that remainder is REJECTED right after it: every normal return behind the stop edge is dominated by
+        # the true edge of an `is_empty()` of the remaining input (`assert!(rest.is_empty())`, `if !rest.is_empty() { return Err }`).  Then
+        # `remaining < c` is fine for the record size c the loop demands - but `remaining <= c` leaves a complete record of exactly c bytes unread
+        # (and the emptiness test rejects a valid input)
+        rejected_after = False
+        stop_tgs = [tg for k, tg in cases.items() if k in stop and tg is not None]
+        from engines import positive_edges as _pe_l
+        for ebi, et in body.calls():
+            if et.callee.method == "is_empty" and et.args:
+                pe_ = _pe_l(body, R.pv, ebi)
+                for tg in stop_tgs:
+                    reach_ = body.reachable_from(tg)
+                    exits_ = [e_ for e_ in body.exits if e_ in reach_ and not fails_from(body, e_)]
+                    if ebi in reach_ and exits_ and all(any(body.edge_dominates(e2, x_) for e2 in pe_) for x_ in exits_):
+                        rejected_after = True
+        if rejected_after and c0 > 0 and stop in ({"lt"}, {"lt", "eq"}):
+            ok = stop == {"lt"}
+            n += 1
+            ck.ob(rule, "%s/end-guard@%s" % (label, "len" if not syms else "offset"), ok, "%s stops reading records when remaining %s %d and rejects whatever is left then%s" % (body.short, "<" if ok else "<=", c0, "" if ok else ": a last record of exactly %d bytes (a header without payload) is complete, yet it is left unread and the input rejected" % c0), where=body.where(cs["line"]))
+            continue
         # stop iff remaining (= LEN - offset) OP c0
         if stop == {"lt"}:
             ok, cond = c0 == 1, "remaining < %d" % c0
